@@ -2,6 +2,7 @@ import QipVerif.Util.Proto
 import QipVerif.Model.Embed
 import QipVerif.Model.EmbedFlat
 import QipVerif.Model.EmbedArgs
+import QipVerif.Model.EmbedObj
 /-! Driver for the embedding model (C08).
 
 * `validate dims=.. targets=.. opdims=..`  →  `ok` | `err <kind>`
@@ -16,8 +17,12 @@ import QipVerif.Model.EmbedArgs
   `kron(..kron(P, 1_r1).., 1_rm)` for a `D × D` matrix `P`
 * `args n=<N|none> dims=<..|none> t=<none|iT|lT1,T2,..> opl=.. opr=.. cyclic=0|1`
                                            →  `ok d1,d2;t1,t2|...` (one group per returned operator) | `err <kind>`
+* `hist elems=<od|none>:<targ>:<oid>;.. ops=<op>;..` with `<targ>` = `none|iT|lT1,T2`, `<op>` = `g:<n3|d1,d2,..>` (ask),
+  `t:<i>:<targ>` (element i: new targets), `q:<i>:<od|none>:<oid>` (element i: new operator object)
+                                           →  `ok` + one group per `g` (`|`), one item per element (`/`):
+                                              `d1,d2;t1,t2;oid` or `!<kind>`
 -/
-open QipVerif QipVerif.Proto QipVerif.Embed QipVerif.EmbedFlat QipVerif.EmbedArgs
+open QipVerif QipVerif.Proto QipVerif.Embed QipVerif.EmbedFlat QipVerif.EmbedArgs QipVerif.EmbedObj
 
 def errName : Err → String
   | .count => "count" | .range => "range" | .dims => "dims" | .index => "index" | .permute => "permute"
@@ -51,6 +56,40 @@ def tArg? (fs : List String) : Option TArg :=
     if s.startsWith "i" then ((s.drop 1).toString.toInt?).map .int
     else if s.startsWith "l" then (intList? (s.drop 1).toString).map .list
     else none
+
+def parseTarg (s : String) : Option TArg :=
+  if s == "none" then some .none
+  else if s.startsWith "i" then ((s.drop 1).toString.toInt?).map .int
+  else if s.startsWith "l" then (intList? (s.drop 1).toString).map .list
+  else none
+
+def parseOd (s : String) : Option (Option (List Nat)) :=
+  if s == "none" then some none else (natList? s).map some
+
+def parseElem (s : String) : Option Elem :=
+  match s.splitOn ":" with
+  | [od, t, oid] => match parseOd od, parseTarg t, oid.toNat? with
+    | some od, some t, some oid => some ⟨od, t, oid⟩
+    | _, _, _ => none
+  | _ => none
+
+def parseOp (s : String) : Option Op :=
+  match s.splitOn ":" with
+  | ["g", d] =>
+    if d.startsWith "n" then ((d.drop 1).toString.toNat?).map (fun n => Op.get (.int n))
+    else (natList? d).map (fun l => Op.get (.list l))
+  | ["t", i, t] => match i.toNat?, parseTarg t with
+    | some i, some t => some (.setTargets i t)
+    | _, _ => none
+  | ["q", i, od, oid] => match i.toNat?, parseOd od, oid.toNat? with
+    | some i, some od, some oid => some (.setOper i od oid)
+    | _, _, _ => none
+  | _ => none
+
+def showGet (r : Except AErr (List Nat × List Nat) × Nat) : String :=
+  match r with
+  | (.ok (d, t), oid) => showNats d ++ ";" ++ showNats t ++ ";" ++ toString oid
+  | (.error e, _) => "!" ++ aErrName e
 
 def step (line : String) : String :=
   let fs := fields line
@@ -131,6 +170,14 @@ def step (line : String) : String :=
       | .error e => "err " ++ aErrName e
       | .ok rs => "ok " ++ "|".intercalate (rs.map fun r => showNats r.1 ++ ";" ++ showNats r.2)
     | _, _, _, _, _, _ => "bad-op"
+  | some "hist" =>
+    match fStr? fs "elems", fStr? fs "ops" with
+    | some es, some ops =>
+      match (splitNE es ";").mapM parseElem, (splitNE ops ";").mapM parseOp with
+      | some es, some ops =>
+        "ok " ++ "|".intercalate ((run es ops).map fun g => "/".intercalate (g.map showGet))
+      | _, _ => "bad-op"
+    | _, _ => "bad-op"
   | _ => "bad-op"
 
 def main : IO Unit := serve step
